@@ -98,7 +98,8 @@ Inductive ev :=
 | PRmIndex (i : iid)
 | PRmPack (p : pid)
 | PDone
-| PAbort.
+| PAbort
+| Forget (n : sid).          (* a snapshot file is removed (forget) *)
 
 (* ---- small list helpers *)
 Fixpoint replace_at {A} (n : nat) (y : A) (l : list A) : list A :=
@@ -386,6 +387,9 @@ Definition step (kd : time) (s : st) (e : ev) : option st :=
       | Some _ => Some (set_prn s None)
       | None => None
       end
+  | Forget n =>
+      Some {| clock := clock s; packs := packs s; idxs := idxs s; snaps := remove_key n (snaps s);
+              bks := bks s; prn := prn s; nextp := nextp s; nexti := nexti s; nexts := nexts s |}
   end.
 
 Fixpoint run (kd : time) (s : st) (es : list ev) : option st :=
